@@ -301,6 +301,63 @@ fn policy_of(v: &Val) -> table::PolicyAssignment {
     }
 }
 
+fn change_of(ch: &Val) -> table::NlriChange {
+    let paths: Vec<table::Path> = ch
+        .at(5)
+        .list()
+        .iter()
+        .map(|p| table::Path {
+            local_path_id: p.at(0).u32(),
+            source: src_of(p.at(1)),
+            nexthop: nh_opt_of(p.at(2)),
+            attr: attrs_of(p.at(3)),
+        })
+        .collect();
+    table::NlriChange {
+        family: family_of(ch.at(0)),
+        net: "10.9.0.0/24".parse().unwrap(),
+        dest_id: ch.at(1).u32(),
+        best_changed: ch.at(2).bool(),
+        any_changed: ch.at(3).bool(),
+        replaced_path_id: ch.at(4).list().first().map(|x| x.u32()),
+        current_paths: Arc::new(paths),
+    }
+}
+
+// [13, ctx, emax, raddr, cid, family, [change..], probe]: a history through one ExportMap
+fn run_history(case: &Val) -> Val {
+    let ctx = ctx_of(case.at(1));
+    let emax = case.at(2).usize();
+    let raddr = ip_of(case.at(3));
+    let cid = cid_of(case.at(4));
+    let family = family_of(case.at(5));
+    let mut map = if emax == 1 {
+        ExportMap::new([])
+    } else {
+        ExportMap::new([family])
+    };
+    let mut all: Vec<Val> = Vec::new();
+    for ch in case.at(6).list() {
+        let update = change_of(ch);
+        let mut sink = RecSink { ops: Vec::new() };
+        process_nlri_change(
+            &update, emax, raddr, &mut map, &mut sink, &ctx, None, cid, None, None, None,
+        );
+        all.extend(canon_ops(sink.ops));
+    }
+    let probe: Vec<Val> = case
+        .at(7)
+        .list()
+        .iter()
+        .map(|d| {
+            let mut ids: Vec<u32> = map.sent_path_ids(family, d.u32()).into_iter().collect();
+            ids.sort();
+            Val::L(ids.into_iter().map(Val::n).collect())
+        })
+        .collect();
+    Val::L(vec![Val::L(all), Val::L(probe)])
+}
+
 fn run_process(case: &Val, policy: Option<&table::PolicyAssignment>) -> Val {
     let ctx = ctx_of(case.at(1));
     let emax = case.at(2).usize();
@@ -445,6 +502,7 @@ fn run_case(case: &Val) -> Val {
             let pa = policy_of(case.at(8));
             run_process(case, Some(&pa))
         }
+        13 => run_history(case),
         // [10, ctx, router_id, cid, attrs]: the receive path for one reach UPDATE.
         // run_select skips the message when is_as_loop (that `continue` is glue
         // replicated here); otherwise PeerSession::rx_update runs for real and the
